@@ -7,9 +7,15 @@ Tie: strict Rat correspondence of `TimeSeries.get` (window / resample step / res
 stage order and the sampling interval handed to the filter are visible in the compared output.
 Search: the property's clauses on the unpatched implementation + float exploration of (start, end, dt) for `resample`.
 Requested time arrays are sorted or unsorted, as ndarray or list, with out-of-span values (far / one ulp outside) at any
-position; the clauses are evaluated on a fresh object and after a *history* of earlier `get(...)` calls on the same object
-(a query must not change what later queries return).
+position; the clauses are evaluated on a fresh object and after a *history* on the same object. A history interleaves
+`get(...)` with the other query methods of TimeSeries (minima / maxima / min / max / mean / std / skew / kurtosis / rfc / psd /
+stats / interpolate / resample / filter / copy / the properties; a query must not change what later queries return, whatever
+the caller does with the arrays it got back) and with in-place changes of the stored arrays (set_dtg_ref, element edits of
+ts.x / ts.t, scaling, shifting, re-assignment, modify): after a change the *currently stored* samples are the reference. The
+"stored arrays" clauses are evaluated after every step of the history (checkpoints), so an earlier query is always followed
+by a later one on the same object.
 """
+from datetime import datetime, timedelta
 from fractions import Fraction
 
 import numpy as np
@@ -21,7 +27,12 @@ RULE = ("seeded dyadic series (3-40 samples; uniform with power-of-two steps, or
         "partially outside / exactly on samples / empty) x resample step / array (inside and outside the span) x all 8 stage "
         "combinations; requested arrays sorted / shuffled / with repeats, out-of-span values at any position (first, interior, last; "
         "far or one ulp outside), passed as ndarray or list to get(resample=) and interpolate(); every clause also after a history "
-        "of 0-3 earlier get() calls (taper / filter / smooth / window / resample combinations) on the same object, and every "
+        "of 0-4 earlier steps on the same object: get() calls (taper / filter / smooth / window / resample combinations), the "
+        "other query methods (minima, maxima, min, max, mean, std, skew, kurtosis, rfc, psd, stats, interpolate, resample, filter, "
+        "copy, properties; with and without get-options; also a get() whose returned arrays the caller edits in place) and "
+        "in-place changes of the stored arrays (set_dtg_ref with / without reference, ts.x[i] edits, ts.x scaling, ts.t shift / "
+        "element move, ts.x re-assignment, modify(twin)), the stored-array clauses being re-evaluated after every step "
+        "(checkpoints) and the remaining inputs generated relative to the series as stored after the history; every "
         "tagged get() issued twice; float exploration of decimal (start, dt, n) for stand-alone resampling; non-trivial = any "
         "option set; distinct by (series, options)")
 
@@ -93,27 +104,125 @@ def gen_request(rng, t, p_out=0.4):
     return pts
 
 
-def gen_history(rng, t):
-    """0-3 earlier get() calls on the same object, as JSON-able keyword dicts (real stage functions)"""
+REF0 = datetime(2020, 1, 1, 12, 0, 0)
+
+GETKW_QUERIES = ("min", "max", "mean", "std", "skew", "kurtosis", "rfc", "psd", "stats")
+QUERIES = ("get", "get_edit", "minima", "maxima", "interpolate", "resample", "filter", "copy", "props") + GETKW_QUERIES
+MUTATORS = ("set_dtg_ref", "edit_x", "set_x", "scale_x", "shift_t", "move_t", "assign_x", "modify")
+
+
+def gen_getkw(rng, lo, hi, p_plain=0.0):
+    """keyword arguments of one get() call as a JSON-able dict (real stage functions); {} = no option at all"""
+    kw = {}
+    if rng.random() < p_plain:
+        return kw
+    k = rng.random()
+    if k < 0.25:
+        kw["twin"] = [lo + (hi - lo) * rng.randint(0, 4) / 8.0, hi - (hi - lo) * rng.randint(0, 3) / 8.0]
+    elif k < 0.4:
+        kw["resample"] = (hi - lo) / rng.choice([1, 2, 4, 7])
+    elif k < 0.5:
+        kw["resample"] = [lo + (hi - lo) * rng.randint(0, 8) / 8.0 for _ in range(rng.randint(1, 4))]
+    if rng.random() < 0.6:
+        kw["taperfrac"] = rng.choice([0.1, 0.25, 0.5])
+    if rng.random() < 0.3:
+        kw["filterargs"] = rng.choice([["lp", 0.1], ["hp", 0.05], ["bp", 0.05, 0.2], ["bs", 0.05, 0.2], ["tp", 1.0]])
+    if rng.random() < 0.25:
+        kw["window_len"] = rng.choice([3, 3, 1, 5])
+    return kw
+
+
+def gen_step(rng, t, x, has_ref):
+    """one step of a history on the series currently stored as (t, x) (Fractions): a query (must not change anything) or an
+    in-place change of the stored arrays, as a JSON-able dict"""
     lo, hi = float(t[0]), float(t[-1])
+    n = len(t)
+    k = rng.random()
+    if k < 0.25:
+        return {"op": "get", "kw": gen_getkw(rng, lo, hi)}
+    if k < 0.65:
+        op = rng.choice(["minima", "minima", "maxima", "maxima", "get_edit", "interpolate", "resample", "filter", "copy", "props"]
+                        + list(GETKW_QUERIES))
+        if op in ("minima", "maxima"):
+            return {"op": op, "kw": gen_getkw(rng, lo, hi, p_plain=0.5), "local": rng.random() < 0.4, "rettime": rng.random() < 0.4}
+        if op == "get_edit":
+            return {"op": op, "kw": gen_getkw(rng, lo, hi, p_plain=0.4)}
+        if op in GETKW_QUERIES:
+            return {"op": op, "kw": gen_getkw(rng, lo, hi, p_plain=0.5)}
+        if op == "interpolate":
+            return {"op": op, "at": [lo + (hi - lo) * rng.randint(0, 16) / 16.0 for _ in range(rng.randint(1, 4))]}
+        if op == "resample":
+            if rng.random() < 0.5:
+                return {"op": op, "dt": (hi - lo) / rng.choice([1, 2, 4, 8])}
+            return {"op": op, "t": [lo + (hi - lo) * rng.randint(0, 16) / 16.0 for _ in range(rng.randint(1, 4))]}
+        if op == "filter":
+            return {"op": op, "args": rng.choice([["lp", 0.1], ["hp", 0.05], ["bp", [0.05, 0.2]], ["bs", [0.05, 0.2]], ["tp", 1.0]])}
+        return {"op": op}
+    op = rng.choice(MUTATORS)
+    if op == "set_dtg_ref":
+        return {"op": op, "shift": rng.choice([None, None, "15/2", "-9/4", "1/2", "30", "-1/8"])}
+    if op == "edit_x":
+        return {"op": op, "i": rng.randrange(n), "add": str(Fraction(rng.choice([-100, -3, 1, 7, 100]), rng.choice([1, 2])))}
+    if op == "set_x":
+        return {"op": op, "i": rng.randrange(n), "value": str(Fraction(rng.randint(-64, 64), rng.choice([1, 2, 4])))}
+    if op == "scale_x":
+        return {"op": op, "by": rng.choice(["-1", "2", "1/2", "0"])}
+    if op == "shift_t":
+        return {"op": op, "by": rng.choice(["1/2", "-3/4", "10", "-8"])}
+    if op == "move_t":
+        i = rng.randrange(1, n - 1)
+        return {"op": op, "i": i, "value": str(t[i - 1] + Fraction(rng.choice([1, 2, 3]), 4) * (t[i + 1] - t[i - 1]))}
+    if op == "assign_x":
+        return {"op": op, "values": [str(Fraction(rng.randint(-64, 64), rng.choice([1, 2, 4]))) for _ in range(n)]}
+    # modify(twin): at least three samples are kept
+    i = rng.randrange(0, n - 2)
+    j = rng.randrange(i + 2, n)
+    return {"op": "modify", "twin": [str(t[i] - Fraction(rng.randint(0, 1), 16)), str(t[j] + Fraction(rng.randint(0, 1), 16))]}
+
+
+def step_op(h):
+    return h.get("op", "get")           # histories written before the other operations existed: plain get() keyword dicts
+
+
+def model_step(t, x, has_ref, h):
+    """the series stored after step h, in exact arithmetic (queries change nothing)"""
+    op = step_op(h)
+    t, x = list(t), list(x)
+    if op == "set_dtg_ref":
+        if h.get("shift") is None:
+            if has_ref:
+                t = [u - t[0] for u in t]           # the reference is moved to the first sample
+        elif has_ref:
+            t = [u + Fraction(h["shift"]) for u in t]
+        else:
+            has_ref = True                           # no earlier reference: nothing to shift
+    elif op == "edit_x":
+        x[h["i"]] += Fraction(h["add"])
+    elif op == "set_x":
+        x[h["i"]] = Fraction(h["value"])
+    elif op == "scale_x":
+        x = [v * Fraction(h["by"]) for v in x]
+    elif op == "shift_t":
+        t = [u + Fraction(h["by"]) for u in t]
+    elif op == "move_t":
+        t[h["i"]] = Fraction(h["value"])
+    elif op == "assign_x":
+        x = [Fraction(v) for v in h["values"]]
+    elif op == "modify":
+        a, b = [Fraction(v) for v in h["twin"]]
+        keep = [(u, v) for u, v in zip(t, x) if a <= u <= b]
+        t, x = [u for u, _ in keep], [v for _, v in keep]
+    return t, x, has_ref
+
+
+def gen_history(rng, t, x, has_ref):
+    """0-4 steps; returns (history, series stored afterwards)"""
     h = []
-    for _ in range(rng.choice([0, 1, 1, 2, 3])):
-        kw = {}
-        k = rng.random()
-        if k < 0.25:
-            kw["twin"] = [lo + (hi - lo) * rng.randint(0, 4) / 8.0, hi - (hi - lo) * rng.randint(0, 3) / 8.0]
-        elif k < 0.4:
-            kw["resample"] = (hi - lo) / rng.choice([1, 2, 4, 7])
-        elif k < 0.5:
-            kw["resample"] = [lo + (hi - lo) * rng.randint(0, 8) / 8.0 for _ in range(rng.randint(1, 4))]
-        if rng.random() < 0.6:
-            kw["taperfrac"] = rng.choice([0.1, 0.25, 0.5])
-        if rng.random() < 0.3:
-            kw["filterargs"] = rng.choice([["lp", 0.1], ["hp", 0.05], ["bp", 0.05, 0.2], ["bs", 0.05, 0.2], ["tp", 1.0]])
-        if rng.random() < 0.25:
-            kw["window_len"] = 3
-        h.append(kw)
-    return h
+    for _ in range(rng.choice([0, 1, 1, 2, 2, 3, 4])):
+        step = gen_step(rng, t, x, has_ref)
+        h.append(step)
+        t, x, has_ref = model_step(t, x, has_ref, step)
+    return h, t, x
 
 
 def kw_of(h):
@@ -127,12 +236,123 @@ def kw_of(h):
     return kw
 
 
-def apply_history(ts, hist):
-    for h in hist or []:
+def apply_step(ts, h):
+    """perform one step of a history on the real object. A refused step (e.g. a filter on a very short series, set_dtg_ref()
+    without a reference) is still part of the history."""
+    op = step_op(h)
+    try:
+        if op == "get":
+            ts.get(**kw_of(h["kw"] if "op" in h else h))
+        elif op == "get_edit":
+            # the caller post-processes what it got back (zero-based time axis, scaled data): its own arrays, not the series
+            tt, xx = ts.get(**kw_of(h["kw"]))
+            if isinstance(xx, np.ndarray) and len(xx):
+                xx *= 0.0
+                xx += 12345.0
+            if isinstance(tt, np.ndarray) and len(tt):
+                tt -= tt[0] + 1.0
+        elif op in ("minima", "maxima"):
+            getattr(ts, op)(local=h.get("local", False), rettime=h.get("rettime", False), **kw_of(h.get("kw", {})))
+        elif op in GETKW_QUERIES:
+            getattr(ts, op)(**kw_of(h.get("kw", {})))
+        elif op == "interpolate":
+            ts.interpolate(np.array(h["at"], dtype=float))
+        elif op == "resample":
+            if "t" in h:
+                ts.resample(t=np.array(h["t"], dtype=float))
+            else:
+                ts.resample(dt=float(h["dt"]))
+        elif op == "filter":
+            ftype, freq = h["args"]
+            ts.filter(ftype, tuple(freq) if isinstance(freq, list) else freq)
+        elif op == "copy":
+            ts.copy()
+        elif op == "props":
+            for name in ("dt", "is_constant_dt", "start", "end", "duration", "n", "dtg_start", "dtg_end", "dtg_time",
+                         "average_frequency", "average_period", "fullname"):
+                try:
+                    getattr(ts, name)
+                except Exception:
+                    pass
+            repr(ts)
+            list(zip(range(3), ts))
+        elif op == "set_dtg_ref":
+            if h.get("shift") is None:
+                ts.set_dtg_ref()
+            else:
+                cur = ts.dtg_ref
+                ts.set_dtg_ref(REF0 if cur is None else cur - timedelta(seconds=float(Fraction(h["shift"]))))
+        elif op == "edit_x":
+            ts.x[h["i"]] += float(Fraction(h["add"]))
+        elif op == "set_x":
+            ts.x[h["i"]] = float(Fraction(h["value"]))
+        elif op == "scale_x":
+            ts.x *= float(Fraction(h["by"]))
+        elif op == "shift_t":
+            tt = ts.t
+            tt += float(Fraction(h["by"]))
+        elif op == "move_t":
+            ts.t[h["i"]] = float(Fraction(h["value"]))
+        elif op == "assign_x":
+            ts.x = np.array([float(Fraction(v)) for v in h["values"]])
+        elif op == "modify":
+            ts.modify(twin=tuple(float(Fraction(v)) for v in h["twin"]))
+    except Exception:
+        pass
+
+
+def make_ts(t, x, case):
+    from qats import TimeSeries
+    tf, xf = np.array([float(v) for v in t]), np.array([float(v) for v in x])
+    return TimeSeries("s", tf, xf, dtg_ref=REF0 if case.get("dtg_ref") else None)
+
+
+def describe(hist):
+    """the suffix of an oracle text that says after what kind of history the clause was evaluated"""
+    ops = [step_op(h) for h in hist or []]
+    if not ops:
+        return ""
+    q = sorted(set(o for o in ops if o not in MUTATORS))
+    m = sorted(set(o for o in ops if o in MUTATORS))
+    parts = []
+    if q:
+        parts.append("earlier queries on the same object: %s" % ", ".join(q))
+    if m:
+        parts.append("in-place changes of the stored arrays, which are then the reference: %s" % ", ".join(m))
+    return " (also after " + "; ".join(parts) + ")"
+
+
+def stored_clauses(ts, t, x, sfx):
+    """the clauses that only need the stored arrays (t, x as Fractions): plain get(), stored values reproduced at stored times,
+    no extrapolation just outside the stored span. Returns [(oracle, expected, observed)]."""
+    tf, xf = np.array([float(v) for v in t]), np.array([float(v) for v in x])
+    bad = []
+
+    def attempt(call):
         try:
-            ts.get(**kw_of(h))
-        except Exception:
-            pass        # a refused query (e.g. a filter on a very short series) is still part of the history
+            return call()
+        except Exception as e:
+            return type(e).__name__
+
+    got = attempt(lambda: ts.get())
+    if isinstance(got, str) or not (np.array_equal(got[0], tf) and np.array_equal(got[1], xf)):
+        bad.append(("without options the stored arrays are returned" + sfx, [tf.tolist()[:5], xf.tolist()[:5]],
+                    got if isinstance(got, str) else [np.asarray(got[0]).tolist()[:5], np.asarray(got[1]).tolist()[:5]]))
+    vals = attempt(lambda: ts.interpolate(tf.copy()))
+    if isinstance(vals, str) or len(vals) != len(xf) or not np.allclose(vals, xf, rtol=1e-12, atol=1e-12):
+        bad.append(("interpolation reproduces stored values at stored times" + sfx, xf.tolist()[:5],
+                    vals if isinstance(vals, str) else np.asarray(vals).tolist()[:5]))
+    got = attempt(lambda: ts.get(resample=tf.copy()))
+    if isinstance(got, str) or len(got[1]) != len(xf) or not np.array_equal(got[0], tf) or \
+            not np.allclose(got[1], xf, rtol=1e-12, atol=1e-12):
+        bad.append(("resampling to the stored times reproduces the stored values" + sfx, xf.tolist()[:5],
+                    got if isinstance(got, str) else np.asarray(got[1]).tolist()[:5]))
+    for q in (t[0] - Fraction(1, 8), t[-1] + Fraction(1, 8)):
+        got = attempt(lambda: float(ts.interpolate(np.array([float(q)]))[0]))
+        if got != "ValueError":
+            bad.append(("outside the stored span interpolation raises instead of extrapolating" + sfx,
+                        "ValueError at %s (stored span %s .. %s)" % (q, t[0], t[-1]), got))
+    return bad
 
 
 def exact_interp(t, x, q):
@@ -145,53 +365,75 @@ def exact_interp(t, x, q):
     return x[0]
 
 
-AFTER = " (also after earlier get() calls on the same object)"
+AFTER = " (also after earlier queries on the same object)"
 
 
 def direct_clauses(t, x, case):
     """The property's clauses on the unpatched implementation for one series (Fractions) and one `case`: optional keys
-    history / twin / qs / step / req. Returns (ts, [(oracle, relevant case keys, expected, observed)])."""
-    from qats import TimeSeries
-    tf, xf = np.array([float(v) for v in t]), np.array([float(v) for v in x])
-    ts = TimeSeries("s", tf.copy(), xf.copy())
+    dtg_ref / history / checkpoints / twin / qs / step / req. The history is applied to one object; with `checkpoints` the
+    stored-array clauses are evaluated on the fresh object and after every step (against the series as stored at that point);
+    twin / qs / req / step refer to the series stored after the whole history.
+    Returns (ts, t', x', [(oracle, relevant case keys, expected, observed, number of history steps needed or None = all)])
+    where (t', x') is the series stored after the history, in exact arithmetic."""
+    t_in, x_in = t, x
+    ts = make_ts(t, x, case)
     hist = case.get("history") or []
-    apply_history(ts, hist)
-    sfx = AFTER if hist else ""
+    has_ref = bool(case.get("dtg_ref"))
     bad = []
-    t0, x0 = ts.get()
-    if not (np.array_equal(t0, tf) and np.array_equal(x0, xf)):
-        bad.append(("without options the stored arrays are returned" + sfx, [], [tf.tolist()[:5], xf.tolist()[:5]],
-                    [np.asarray(t0).tolist()[:5], np.asarray(x0).tolist()[:5]]))
+    seen = set()
+    if case.get("checkpoints", True) and hist:
+        for oracle, exp, obs in stored_clauses(ts, t, x, ""):
+            seen.add(oracle)
+            bad.append((oracle, [], exp, obs, 0))
+    for k, h in enumerate(hist):
+        apply_step(ts, h)
+        t, x, has_ref = model_step(t, x, has_ref, h)
+        if case.get("checkpoints", True) and k + 1 < len(hist):
+            for oracle, exp, obs in stored_clauses(ts, t, x, describe(hist[:k + 1])):
+                if oracle.split(" (also")[0] not in seen:       # the first step after which a clause fails
+                    seen.add(oracle.split(" (also")[0])
+                    bad.append((oracle, [], exp, obs, k + 1))
+    tf, xf = np.array([float(v) for v in t]), np.array([float(v) for v in x])
+    sfx = describe(hist)
+    for oracle, exp, obs in stored_clauses(ts, t, x, sfx):
+        if oracle.split(" (also")[0] not in seen:
+            bad.append((oracle, [], exp, obs, None))
+    def attempt(call):
+        try:
+            return call()
+        except Exception as e:
+            return type(e).__name__
+
+    def pairs(got):
+        return got if isinstance(got, str) else list(zip(np.asarray(got[0]).tolist(), np.asarray(got[1]).tolist()))[:5]
+
     if "twin" in case:
         a, b = [Fraction(v) for v in case["twin"]]
-        tw, xw = ts.get(twin=(float(a), float(b)))
+        got = attempt(lambda: ts.get(twin=(float(a), float(b))))
         keep = [(float(u), float(v)) for u, v in zip(t, x) if a <= u <= b]
-        if list(zip(tw.tolist(), xw.tolist())) != keep:
+        if isinstance(got, str) or list(zip(got[0].tolist(), got[1].tolist())) != keep:
             bad.append(("a window returns exactly the samples in the closed window, unchanged and in order" + sfx, ["twin"],
-                        keep[:5], list(zip(tw.tolist(), xw.tolist()))[:5]))
-        # modify == get
-        ts2 = TimeSeries("s", tf.copy(), xf.copy())
-        apply_history(ts2, hist)
-        ts2.modify(twin=(float(a), float(b)))
-        if not (np.array_equal(ts2.t, tw) and np.array_equal(ts2.x, xw)):
-            bad.append(("modify(**kwargs) stores what get(**kwargs) returns", ["twin"], [tw.tolist()[:5], xw.tolist()[:5]],
-                        [np.asarray(ts2.t).tolist()[:5], np.asarray(ts2.x).tolist()[:5]]))
-    # interpolation reproduces nodes, is linear in between, raises outside
-    vals = ts.interpolate(tf)
-    if not np.allclose(vals, xf, rtol=1e-12, atol=1e-12):
-        bad.append(("interpolation reproduces stored values at stored times" + sfx, [], xf.tolist()[:5], np.asarray(vals).tolist()[:5]))
+                        keep[:5], pairs(got), None))
+        else:
+            # modify == get (second object with the same history)
+            tw, xw = got
+            ts2 = make_ts(t_in, x_in, case)
+            for h in hist:
+                apply_step(ts2, h)
+            r = attempt(lambda: ts2.modify(twin=(float(a), float(b))))
+            if isinstance(r, str) or not (np.array_equal(ts2.t, tw) and np.array_equal(ts2.x, xw)):
+                bad.append(("modify(**kwargs) stores what get(**kwargs) returns", ["twin"], [tw.tolist()[:5], xw.tolist()[:5]],
+                            r if isinstance(r, str) else [np.asarray(ts2.t).tolist()[:5], np.asarray(ts2.x).tolist()[:5]], None))
+    # interpolation is linear between the nodes, raises outside
     for qs in case.get("qs", []):
         q = Fraction(qs)
         exp = exact_interp(t, x, q)
-        try:
-            got = float(ts.interpolate(np.array([float(q)]))[0])
-        except ValueError:
-            got = "ValueError"
+        got = attempt(lambda: float(ts.interpolate(np.array([float(q)]))[0]))
         if exp is None:
             if got != "ValueError":
-                bad.append(("outside the stored span interpolation raises instead of extrapolating", ["qs"], "ValueError", got))
-        elif got == "ValueError" or abs(got - float(exp)) > 1e-11 * max(1.0, abs(float(exp))):
-            bad.append(("between two stored samples the value is their linear interpolation" + sfx, ["qs"], float(exp), got))
+                bad.append(("outside the stored span interpolation raises instead of extrapolating" + sfx, ["qs"], "ValueError", got, None))
+        elif isinstance(got, str) or abs(got - float(exp)) > 1e-11 * max(1.0, abs(float(exp))):
+            bad.append(("between two stored samples the value is their linear interpolation" + sfx, ["qs"], float(exp), got, None))
     # requested time arrays (sorted or not, ndarray or list), through interpolate() and get(resample=...)
     if "req" in case:
         req = [Fraction(v) for v in case["req"]]
@@ -210,38 +452,45 @@ def direct_clauses(t, x, case):
             if outside:
                 if not isinstance(got, str):
                     bad.append(("resampling to a given array raises instead of extrapolating when a requested time (at any position "
-                                "of the array) is outside the stored span — %s" % label, ["req"],
-                                "an exception (outside: %s)" % ", ".join(outside[:3]), got[1][:8]))
+                                "of the array) is outside the stored span" + sfx + " — %s" % label, ["req"],
+                                "an exception (outside: %s)" % ", ".join(outside[:3]), got[1][:8], None))
                 continue
             expf = [float(e) for e in exp]
             if isinstance(got, str) or len(got[0]) != len(got[1]) or got[0] != reqf or len(got[1]) != len(expf) or \
                     not np.allclose(got[1], expf, rtol=1e-11, atol=1e-11):
                 bad.append(("resampling to a given array returns the linear interpolation of the stored samples on exactly that grid"
-                            + sfx + " — %s" % label, ["req"], [reqf[:8], expf[:8]], got if isinstance(got, str) else [got[0][:8], got[1][:8]]))
+                            + sfx + " — %s" % label, ["req"], [reqf[:8], expf[:8]],
+                            got if isinstance(got, str) else [got[0][:8], got[1][:8]], None))
     # resample to a step: grid from first to last sample with the spacing closest to the request
     if "step" in case:
         d = Fraction(case["step"])
-        tr, xr = ts.get(resample=float(d))
-        k = len(tr) - 1
+        got = attempt(lambda: ts.get(resample=float(d)))
         ratio = (t[-1] - t[0]) / d
-        if not (tr[0] == tf[0] and tr[-1] == tf[-1] and k >= 1 and abs(Fraction(k) - ratio) <= Fraction(1, 2) + Fraction(1, 10 ** 9) and
-                np.allclose(np.diff(tr), float(t[-1] - t[0]) / k, rtol=1e-12)):
+        if isinstance(got, str):
             bad.append(("resampling to a step gives an equidistant grid from the first to the last sample whose spacing is the one closest "
-                        "to the request", ["step"], "k=%s" % round(ratio), tr.tolist()[:6]))
-        elif len(tr) != len(xr):
-            bad.append(("time and data have equal length", ["step"], len(tr), len(xr)))
+                        "to the request" + sfx, ["step"], "k=%s" % round(ratio), got, None))
         else:
-            # the grid values are the linear interpolation of the stored samples (grid points are floats: compare at the float grid)
-            expv = [exact_interp(t, x, min(max(Fraction(float(u)), t[0]), t[-1])) for u in tr]
-            if not np.allclose(xr, [float(e) for e in expv], rtol=1e-10, atol=1e-10):
-                bad.append(("resampling returns the linear interpolation of the stored samples on the requested grid" + sfx, ["step"],
-                            [float(e) for e in expv][:6], np.asarray(xr).tolist()[:6]))
+            tr, xr = got
+            k = len(tr) - 1
+            if not (k >= 1 and tr[0] == tf[0] and tr[-1] == tf[-1] and abs(Fraction(k) - ratio) <= Fraction(1, 2) + Fraction(1, 10 ** 9) and
+                    np.allclose(np.diff(tr), float(t[-1] - t[0]) / k, rtol=1e-12)):
+                bad.append(("resampling to a step gives an equidistant grid from the first to the last sample whose spacing is the one "
+                            "closest to the request" + sfx, ["step"], "k=%s" % round(ratio), tr.tolist()[:6], None))
+            elif len(tr) != len(xr):
+                bad.append(("time and data have equal length", ["step"], len(tr), len(xr), None))
+            else:
+                # the grid values are the linear interpolation of the stored samples (grid points are floats: compare at the float grid)
+                expv = [exact_interp(t, x, min(max(Fraction(float(u)), t[0]), t[-1])) for u in tr]
+                if not np.allclose(xr, [float(e) for e in expv], rtol=1e-10, atol=1e-10):
+                    bad.append(("resampling returns the linear interpolation of the stored samples on the requested grid" + sfx, ["step"],
+                                [float(e) for e in expv][:6], np.asarray(xr).tolist()[:6], None))
     # the queries above did not change what a plain query returns
-    t0, x0 = ts.get()
-    if not (np.array_equal(t0, tf) and np.array_equal(x0, xf)):
+    got = attempt(lambda: ts.get())
+    if isinstance(got, str) or not (np.array_equal(got[0], tf) and np.array_equal(got[1], xf)):
         bad.append(("without options the stored arrays are returned" + AFTER, [k for k in ("twin", "qs", "req", "step") if k in case],
-                    [tf.tolist()[:5], xf.tolist()[:5]], [np.asarray(t0).tolist()[:5], np.asarray(x0).tolist()[:5]]))
-    return ts, bad
+                    [tf.tolist()[:5], xf.tolist()[:5]],
+                    got if isinstance(got, str) else [np.asarray(got[0]).tolist()[:5], np.asarray(got[1]).tolist()[:5]], None))
+    return ts, t, x, bad
 
 
 def gen_opts(rng, t):
@@ -364,11 +613,19 @@ def tagged_clauses(t, x, o, ftype):
     return res[0], res[1], bad
 
 
-def gen_case(rng, t):
+CASE_KEYS = ("dtg_ref", "history", "checkpoints", "twin", "qs", "req", "step")
+
+
+def gen_case(rng, t, x):
+    """history on the object first; window / interpolation points / requested array / step are then drawn relative to the series
+    as stored after the history"""
     case = {}
-    hist = gen_history(rng, t)
+    if rng.random() < 0.5:
+        case["dtg_ref"] = True
+    hist, t, x = gen_history(rng, t, x, bool(case.get("dtg_ref")))
     if hist:
         case["history"] = hist
+        case["checkpoints"] = rng.random() < 0.75
     a, b = sorted([t[rng.randrange(len(t))] + Fraction(rng.randint(-1, 1), 16), t[rng.randrange(len(t))] + Fraction(rng.randint(-1, 1), 16)])
     case["twin"] = [str(a), str(b)]
     i = rng.randrange(len(t) - 1)
@@ -382,10 +639,16 @@ def gen_case(rng, t):
     return case
 
 
-def fail_input(inp, case, keys):
+def fail_input(inp, case, keys, nsteps=None):
     j = dict(inp)
-    if case.get("history"):
-        j["history"] = case["history"]
+    if case.get("dtg_ref"):
+        j["dtg_ref"] = True
+    hist = case.get("history") or []
+    if nsteps is not None:
+        hist = hist[:nsteps]
+    if hist:
+        j["history"] = hist
+        j["checkpoints"] = bool(case.get("checkpoints", True))
     for k in keys:
         j[k] = case[k]
     return j
@@ -446,31 +709,41 @@ def run(chk):
     lines, meta = [], []
     todo = []
     for c in core.load_corpus("C11"):
-        todo.append(([Fraction(v) for v in c["t"]], [Fraction(v) for v in c["x"]],
-                     {k: c[k] for k in ("history", "twin", "qs", "req", "step") if k in c}, "corpus"))
+        todo.append(([Fraction(v) for v in c["t"]], [Fraction(v) for v in c["x"]], {k: c[k] for k in CASE_KEYS if k in c}, "corpus"))
     for _ in range(M):
         t, x = gen_series(rng)
-        todo.append((t, x, gen_case(rng, t), "clauses"))
+        todo.append((t, x, gen_case(rng, t, x), "clauses"))
     for t, x, case, stream in todo:
         inp = dict(t=[str(v) for v in t], x=[str(v) for v in x])
         chk.count(stream)
         hist = case.get("history") or []
-        chk.dist("history: %d earlier get() calls%s" % (len(hist), " (one with taper/filter/smooth and neither window nor resampling)"
-                                                        if any("twin" not in h and "resample" not in h and h for h in hist) else ""))
+        ops = [step_op(h) for h in hist]
+        chk.dist("history: %d steps" % len(hist))
+        chk.dist("history: %s" % ("none" if not hist else "queries only" if not any(o in MUTATORS for o in ops) else
+                                  "in-place changes only" if all(o in MUTATORS for o in ops) else "queries and in-place changes"))
+        for o in sorted(set(ops)):
+            chk.dist("history step: %s" % o)
+        if any(step_op(h) != "get" and not h.get("kw") and step_op(h) in ("minima", "maxima", "get_edit") + GETKW_QUERIES for h in hist):
+            chk.dist("history: a non-get query without any get-option")
         if "req" in case:
+            # classified on the series as stored after the history
+            t2, x2, ref = t, x, bool(case.get("dtg_ref"))
+            for h in hist:
+                t2, x2, ref = model_step(t2, x2, ref, h)
             pts = [Fraction(v) for v in case["req"]]
-            inside = [t[0] <= q <= t[-1] for q in pts]
+            inside = [t2[0] <= q <= t2[-1] for q in pts]
             chk.dist("request: %s%s" % ("sorted" if pts == sorted(pts) else "unsorted",
                                         "" if all(inside) else (" outside-at-end" if not (inside[0] and inside[-1]) else " outside-interior")))
-        ts, bad = direct_clauses(t, x, case)
-        for oracle, keys, exp, obs in bad:
-            chk.fail(oracle, fail_input(inp, case, keys), exp, obs)
-        # stand-alone resampling: exact correspondence only for dyadic steps (np.arange's length ceil((b-a)/d) is then exact)
-        d2 = (t[-1] - t[0]) / rng.choice([1, 2, 4, 8]) * rng.choice([Fraction(1), Fraction(5, 4), Fraction(3, 4)])
-        lines.append("pl.resample %s | %s | %s" % (rat(d2), " ".join(rat(v) for v in t), " ".join(rat(v) for v in x)))
-        meta.append((ts, d2, fail_input(inp, case, [])))
+        ts, t2, x2, bad = direct_clauses(t, x, case)
+        for oracle, keys, exp, obs, nsteps in bad:
+            chk.fail(oracle, fail_input(inp, case, keys, nsteps), exp, obs)
+        # stand-alone resampling of the series as stored after the history: exact correspondence only for dyadic steps
+        # (np.arange's length ceil((b-a)/d) is then exact)
+        d2 = (t2[-1] - t2[0]) / rng.choice([1, 2, 4, 8]) * rng.choice([Fraction(1), Fraction(5, 4), Fraction(3, 4)])
+        lines.append("pl.resample %s | %s | %s" % (rat(d2), " ".join(rat(v) for v in t2), " ".join(rat(v) for v in x2)))
+        meta.append((ts, d2, fail_input(inp, case, []), t2[-1] - t2[0]))
     outs = drv.run(lines)
-    for (ts, d, inp), out in zip(meta, outs):
+    for (ts, d, inp, span), out in zip(meta, outs):
         chk.count("pl.resample")
         try:
             r = ts.resample(dt=float(d))
@@ -480,7 +753,7 @@ def run(chk):
         if out.startswith("err") or isinstance(im, str):
             if not (out.startswith("err") and isinstance(im, str)):
                 chk.disagree("pl.resample", dict(inp, dt=str(d)), out, im)
-            if isinstance(im, str) and 0 < d <= Fraction(inp["t"][-1]) - Fraction(inp["t"][0]):
+            if isinstance(im, str) and 0 < d <= span:
                 chk.fail("stand-alone resampling of the full duration to a positive step not exceeding it succeeds", dict(inp, dt=str(d)), "values", im)
             continue
         mv = [float(Fraction(v)) for v in out.split()[1:]]
@@ -511,6 +784,10 @@ def run(chk):
     chk.sample(dict(t=[0, 1, 2, 3, 4], x=[0, 1, 4, 9, 16], opts="twin=(1,3) taper filter", model=[[1, 2, 3], [5, 11, 21]]))
     chk.sample(dict(t=[0, 1, 2, 3, 4], x=[0, 1, 4, 9, 16], req=[1, 5, 2], expected="raises (5 is outside the stored span)"))
     chk.sample(dict(t=[0, 1, 2, 3, 4], x=[0, 1, 4, 9, 16], history=[{"taperfrac": 0.1}], then="get()", expected=[[0, 1, 2, 3, 4], [0, 1, 4, 9, 16]]))
+    chk.sample(dict(t=[0, 1, 2, 3, 4], x=[0, 1, 4, 9, 16], history=[{"op": "minima"}], then="get(twin=(1, 3))", expected=[[1, 2, 3], [1, 4, 9]]))
+    chk.sample(dict(t=[0, 1, 2, 3, 4], x=[0, 1, 4, 9, 16], dtg_ref=True,
+                    history=[{"op": "interpolate", "at": [0.5]}, {"op": "set_dtg_ref", "shift": "15/2"}], then="get(resample=[8.0])",
+                    expected=[[8.0], [0.5]], note="the stored times are now 7.5 .. 11.5"))
 
 
 def replay(rp):
@@ -539,11 +816,13 @@ def replay(rp):
     else:
         t = [Fraction(v) for v in inp["t"]]
         x = [Fraction(v) for v in inp["x"]]
-        case = {k: inp[k] for k in ("history", "twin", "qs", "req", "step") if k in inp}
+        case = {k: inp[k] for k in CASE_KEYS if k in inp}
         if "q" in inp:      # replay files written before `qs`
             case["qs"] = [inp["q"]]
-        ts, fails = direct_clauses(t, x, case)
-        for oracle, keys, exp, obs in fails:
+        ts, t, x, fails = direct_clauses(t, x, case)
+        if case.get("history"):
+            print("series stored after the history:", [float(v) for v in t][:8], [float(v) for v in x][:8])
+        for oracle, keys, exp, obs, nsteps in fails:
             print("FAILS:", oracle, "| expected", exp, "| observed", obs)
             bad += 1
         if "dt" in inp:
